@@ -92,11 +92,14 @@ EvalU(b) ==
           /\ ret' = RAdd(RMul(alpha, EmaStep(Beta2, vb, b)),
                          RMul(RSub(RInt(1), alpha), EmaStep(Beta, vwb, b)))
 \* WarmupBaseline.epoch_callback(epoch = e) called by the trainer with e = 0, 1, 2, ...
-EpochU ==
-  /\ uhist' = Append(uhist, <<"epoch", epoch>>)
-  /\ alpha' = IF epoch < NEp THEN RNorm(<<epoch + 1, NEp>>) ELSE alpha
-  /\ epoch' = epoch + 1
+\* general form: the callback receives the trainer's epoch number e (a run resumed from a checkpoint re-creates the
+\* baseline object and continues with e > 0; used by StatsTrace.tla, the model itself counts e = 0, 1, 2, ...)
+EpochAt(e) ==
+  /\ uhist' = Append(uhist, <<"epoch", e>>)
+  /\ alpha' = IF e < NEp THEN RNorm(<<e + 1, NEp>>) ELSE alpha
+  /\ epoch' = e + 1
   /\ UNCHANGED <<vb, vwb, seenB, seenWB, ret>>
+EpochU == EpochAt(epoch)
 StepU == Len(uhist) < MaxB /\ (EpochU \/ \E b \in Batches : EvalU(b))
 \* the weight moves from zero to one over NEp epochs
 AlphaExact == REq(alpha, IF epoch >= NEp THEN <<1, 1>> ELSE <<epoch, NEp>>)
